@@ -5,7 +5,7 @@ from vlib.jsonvals import is_num
 from statham.schema.constants import NotPassed
 from statham.schema.elements import Element
 from statham.schema.elements.meta import ObjectMeta
-from statham.serializers.orderer import get_children
+from statham.serializers.orderer import get_children  # noqa: F401 (re-exported)
 
 
 def declared_names(*elements):
